@@ -405,6 +405,30 @@ let run (toks : string list) (cout : string list) : string =
            let e = string_of_bool01 (some (rn_is_integer fuel pool.(i).x)) in
            if o <> e then fail "%s: is_integer is %s, reference says %s" what o e;
            vitem := (CIsInt (nat i), BBool (o = "1"))
+         | ["ra"; _] ->
+           (* lp_value_is_rational = "KNOWN to be rational": a function of the representation (plain rational, point,
+              polynomial of degree 1).  Sound: 1 only for a rational number, and then lp_value_get_rational is the number.
+              lp_algebraic_number_to_rational: the number itself when known rational, else within 2^-99 below it.  None of
+              them may touch a slot (to_rational refines a copy). *)
+           let i = slot 1 in let r = next () in let q1 = next () in let q2 = next () in
+           let b = before.(i) in
+           let known = (match b.kind, b.f with "a", Some p -> int_of_nat (pdeg p) = 1 | "a", None -> false | _ -> true) in
+           if r <> string_of_bool01 known then
+             fail "%s: lp_value_is_rational is %s for the representation %s" what r b.tok;
+           if r = "1" then begin
+             if not (some (rn_is_rational fuel pool.(i).x)) then fail "%s: is_rational answers 1 for an irrational number" what;
+             if q1 = "-" || sg (rn_cmp_q pool.(i).x (q_of_string q1)) <> 0 then
+               fail "%s: lp_value_get_rational gives %s, the number is %s" what q1 (string_of_rnum pool.(i).x)
+           end;
+           (match kind_class b.kind, q2 with
+            | "alg", "-" -> fail "%s: no to_rational output" what
+            | "alg", _ ->
+              let q = q_of_string q2 in
+              let c = sg (rn_cmp_q pool.(i).x q) in
+              if r = "1" && c <> 0 then fail "%s: to_rational gives %s for the rational number %s" what q2 (string_of_rnum pool.(i).x);
+              if c < 0 || sg (rn_cmp_q pool.(i).x (q_add q (z_of_int 1, pow2 (n_of_int 99)))) > 0 then
+                fail "%s: to_rational gives %s, not within 2^-99 below the number %s" what q2 (string_of_rnum pool.(i).x)
+            | _ -> ())
          | ["db"; _] ->
            let i = slot 1 in let o = next () in
            (match split ':' o with
